@@ -100,7 +100,7 @@ func (c *Ctx) ruleNodeEncodeOrder() {
 		{"children-bitmap", callNamed("ChildrenBitmap")},
 		{"value", callNamed("Blake2bHash", "Encode")},
 		{"children", callNamed("encodeChildrenOpportunisticParallel")},
-	})
+	}, "writer and reader of the node encoding must agree on the field order")
 	isDecodeInto := func(field string, want bool) func(in ssa.Instruction) bool {
 		return func(in ssa.Instruction) bool {
 			call, ok := in.(*ssa.Call)
@@ -126,7 +126,7 @@ func (c *Ctx) ruleNodeEncodeOrder() {
 		{"children-bitmap", callNamed("io.ReadFull", "Read")},
 		{"value", valueStep},
 		{"children", isDecodeInto("StorageValue", false)},
-	})
+	}, "writer and reader of the node encoding must agree on the field order")
 }
 
 func init() {
